@@ -2356,4 +2356,92 @@ theorem client_chunked_framed (hs0 : Dic) (hh : Canon hs0) (hnf : NoFraming hs0)
 
 
 
+
+
+/-! ### what `sendHeaders` and the end of a whole message do to a message that is not chunked / has no length -/
+
+theorem keys_of_dicGet_none {d : Dic} {K : Bytes} (h : dicGet d K = none) : ∀ x ∈ d, x.1 ≠ K := by
+  induction d with
+  | nil => intro x hx; cases hx
+  | cons kv t ih =>
+    obtain ⟨k', v'⟩ := kv
+    by_cases hk : k' = K
+    · simp [dicGet, hk] at h
+    · simp only [dicGet, hk, if_false] at h
+      intro x hx
+      rcases List.mem_cons.mp hx with hx | hx
+      · subst hx; exact hk
+      · exact ih h x hx
+
+theorem teChunked_of_no_te {h : Dic} (hte : dicGet h sTransferEncoding = none) :
+    teChunked (header h sTransferEncoding) = false := by
+  rw [(header_of_dicGet_none cap_te hte).1]; decide
+
+theorem sentHeaders_plain {h : Dic} (hte : teChunked (header h sTransferEncoding) = false) : sentHeaders h = h := by
+  unfold sentHeaders; simp [hte]
+
+theorem endOf_plain {h : Dic} (hte : teChunked (header h sTransferEncoding) = false) : endOf h = [] := by
+  unfold endOf; simp [hte]
+
+/-- a message without a chunked coding is written as before: its headers as they are, its body, nothing after it -/
+theorem serializeWith_plain (blk : Nat) (m : Msg) (hte : teChunked (header m.headers sTransferEncoding) = false) :
+    serializeWith blk m = headerBlock m.command m.headers ++ writeBody (isChunked m.headers) blk m.body := by
+  unfold serializeWith; rw [sentHeaders_plain hte, endOf_plain hte, List.append_nil]
+
+theorem serializeFile_plain (blk rblk : Nat) (command : Bytes) (h : Dic) (content : Bytes)
+    (hte : teChunked (header h sTransferEncoding) = false) :
+    serializeFile blk rblk command h content = headerBlock command h ++ writeFile (isChunked h) blk rblk content := by
+  unfold serializeFile; rw [sentHeaders_plain hte, endOf_plain hte, List.append_nil]
+
+/-- a dictionary without Content-Length goes out as it is, chunked or not -/
+theorem sentHeaders_no_cl {h : Dic} (hcl : dicGet h sContentLength = none) : sentHeaders h = h := by
+  unfold sentHeaders
+  split
+  · unfold setHeader
+    simp only [List.isEmpty_nil, if_true, cap_cl]
+    exact dicRemove_absent (keys_of_dicGet_none hcl)
+  · rfl
+
+/-- a chunked message written as a whole: no Content-Length, every block a chunk, then the last chunk -/
+theorem serializeWith_chunked (blk : Nat) (m : Msg) (hcl : dicGet m.headers sContentLength = none)
+    (hte : teChunked (header m.headers sTransferEncoding) = true) :
+    serializeWith blk m = headerBlock m.command m.headers ++ writeBody true blk m.body ++ lastChunk := by
+  have hch : isChunked m.headers = true := by unfold isChunked; rw [(header_of_dicGet_none cap_cl hcl).1]; rfl
+  unfold serializeWith endOf
+  rw [sentHeaders_no_cl hcl, hch, hte]; rfl
+
+/-- `NoFraming` headers (raw list of a request object): no Transfer-Encoding entry -/
+theorem dicGet_te_of_noFraming {hs : Dic} (hnf : NoFraming hs) : dicGet hs sTransferEncoding = none :=
+  dicGet_none_of_keys (fun x hx e => (hnf x hx).2 (by rw [e]; exact cap_te))
+
+theorem dicRemove_dicSet_absent {d : Dic} {K : Bytes} (v : Bytes) (h : ∀ x ∈ d, x.1 ≠ K) : dicRemove (dicSet d K v) K = d := by
+  induction d with
+  | nil => simp [dicSet, dicRemove]
+  | cons kv t ih =>
+    obtain ⟨k', v'⟩ := kv
+    have h0 : ¬ k' = K := h (k', v') List.mem_cons_self
+    simp only [dicSet, h0, if_false]
+    split
+    · simp [dicRemove]
+    · simp only [dicRemove, h0, if_false]
+      rw [ih (fun x hx => h x (List.mem_cons_of_mem _ hx))]
+
+/-- `put()` on a message whose owner asked for the chunked coding: the Content-Length that `put` sets does not go out -/
+theorem sentHeaders_put_chunked {D : Dic} (len : Bytes) (hlen : len ≠ []) (hcl : dicGet D sContentLength = none)
+    (hte : dicGet D sTransferEncoding = some sChunked) :
+    sentHeaders (setHeader D sContentLength len) = D ∧ endOf (setHeader D sContentLength len) = lastChunk := by
+  have hte' : teChunked (header (setHeader D sContentLength len) sTransferEncoding) = true := by
+    have : dicGet (setHeader D sContentLength len) sTransferEncoding = some sChunked := by
+      rw [dicGet_setHeader_other _ _ _ _ hlen (by rw [cap_cl]; decide)]; exact hte
+    rw [(header_of_dicGet cap_te this).1]; decide
+  constructor
+  · unfold sentHeaders
+    rw [hte']
+    simp only [if_true]
+    rw [setHeader_of_value hlen, cap_cl]
+    unfold setHeader
+    simp only [List.isEmpty_nil, if_true, cap_cl]
+    exact dicRemove_dicSet_absent len (keys_of_dicGet_none hcl)
+  · unfold endOf; rw [hte']; rfl
+
 end AslProofs.HttpFrame
